@@ -266,14 +266,52 @@ def rule_divmod(ctx):
     if not goal.is_zero():
       ok = False
       why = "a - (x*b + y) = %r (not zero under divmod's identity)" % (goal,)
-    d = e.state.env.get("d")
-    okd = d is not None and as_poly(d) == sym.mk("fdiv", b + 1, Poly.const(2))
-    # remainder is mod(a + d, b) - d : range [-d, b - d)
-    ya = y + as_poly(d) if d is not None else None
-    if ya is None or ya.as_atom() is None or ya.as_atom().kind != "mod" or ya.as_atom().args[0] != a + as_poly(d):
-      okd = False
+    # the remainder is mod(A, b) - d with A = a + d: it ranges over [-d, b - d - 1]; nearest-integer rounding needs
+    # 2d <= b (never below -b/2) and b <= 2d + 2 (never above b/2).  Decided per residue of b modulo 2.
+    okd = True
+    whyd = ""
+    dterm = None
+    for at in y.all_atoms():
+      if at.kind == "mod" and at.args[1] == b:
+        dterm = at.args[0] - a
+        if not (y - (Poly.atom(at) - dterm)).is_zero():
+          dterm = None
+    if dterm is None or a.as_atom() in dterm.all_atoms():
+      okd = None
+      whyd = "remainder is not of the form (a + d) mod b - d"
+    else:
+      from pcstatic import bitwidth
+      import math
+      q = P("q")
+      # shifts are floor divisions by powers of two
+      for at in list(dterm.all_atoms()):
+        if at.kind == "shr" and at.args[1].as_int() is not None and 0 <= at.args[1].as_int() <= 16:
+          dterm = sym.rebuild(dterm.deep_subst(at, sym.mk("fdiv", at.args[0], Poly.const(1 << at.args[1].as_int()))))
+      cmod = 2
+      for at in dterm.all_atoms():
+        if at.kind in ("fdiv", "mod") and at.args[1].as_int():
+          cmod = cmod * at.args[1].as_int() // math.gcd(cmod, at.args[1].as_int())
+      for r in range(cmod if cmod <= 64 else 2):
+        cx = bitwidth.PathCtx(w, [], b, q, cmod if cmod <= 64 else 2, r)
+        dd = cx.subst(dterm)
+        la = cx.linear_in_q(dd)
+        if la is None:
+          okd = None
+          whyd = "offset %r is not linear in b" % (dterm,)
+          break
+        cq, k = la          # d = cq*q + k with b = c*q + r, q >= 0 (q >= 1 when r == 0)
+        qmin = 1 if r == 0 else 0
+        c_ = cx.c
+        # 2d <= b  <=>  (c - 2cq) q + (r - 2k) >= 0 ;  b <= 2d + 2  <=>  (2cq - c) q + (2k + 2 - r) >= 0
+        lo = (c_ - 2 * cq, r - 2 * k)
+        hi = (2 * cq - c_, 2 * k + 2 - r)
+        for nm, (c1, c0) in (("remainder can drop below -b/2", lo), ("remainder can exceed b/2", hi)):
+          if c1 < 0 or c1 * qmin + c0 < 0:
+            okd = False
+            qw = qmin if c1 * qmin + c0 < 0 else max(qmin, (-c0) // (-c1) + 1 if c1 < 0 else qmin)
+            whyd = "%s: offset d = %s for b = %d*q + %d (e.g. b = %d)" % (nm, "%d*q%+d" % (cq, k), c_, r, c_ * qw + r)
   ctx.record(R, f.where, "a == x*b + y", ok, why or "identity from divmod(a + d, b) = (x, y + d)")
-  ctx.record(R, f.where, "rounding offset d = (b + 1) // 2", okd, "remainder in [-d, b - d): nearest-integer quotient" if okd else "offset is not (b + 1) // 2 / remainder not shifted back by d")
+  ctx.record(R, f.where, "nearest-integer rounding: |remainder| <= b/2 for even and odd b", okd, whyd or "offset d satisfies 2d <= b <= 2d + 2 on both residues of b mod 2")
 
 
 def rule_roots(ctx):
